@@ -298,7 +298,7 @@ int main(int argc, char **argv) {
     HB = 1u << 24; hs = calloc(HB, 8);
     struct res *r = calloc(1, sizeof *r);
     if (a < argc && !strcmp(argv[a], "case")) {       /* case <harness> <pb> <choices> : re-execute one schedule, twice */
-        HARNESS = atoi(argv[a + 1]); SYNC_ONLY = argv[a + 2][0] == 's'; PB = atoi(argv[a + 2] + (SYNC_ONLY ? 1 : 0)); NT = (HARNESS == 3 || HARNESS == 5) ? 3 : 2; POOLED = HARNESS == 8;
+        HARNESS = atoi(argv[a + 1]); SYNC_ONLY = argv[a + 2][0] == 's'; PB = atoi(argv[a + 2] + (SYNC_ONLY ? 1 : 0)); NT = (HARNESS == 3 || HARNESS == 5) ? 3 : 2; POOLED = HARNESS == 8; TWIN = HARNESS == 10;
         { polyseed_dependency dd = { d_rand, d_kdf, d_mz, d_nfc, d_nfkd, d_time, HARNESS == 6 ? NULL : d_alloc, HARNESS == 6 ? NULL : d_free }; polyseed_inject(&dd); polyseed_enable_features(3); free(snap); snap = sec_copy(); }
         serial_reference();
         int n = 0; char *dup = strdup(a + 3 < argc ? argv[a + 3] : ""); for (char *t = strtok(dup, ","); t; t = strtok(NULL, ",")) prefix[n++] = atoi(t);
@@ -310,11 +310,11 @@ int main(int argc, char **argv) {
     long max_states = G_thorough ? 6000000 : 1500000;
     static const char *CLS[] = { "executions", "executions_with_race", "executions_not_serially_equivalent", "executions_without_progress", NULL };
     out_begin();
-    for (HARNESS = 1; HARNESS <= 9; HARNESS++) {
+    for (HARNESS = 1; HARNESS <= 10; HARNESS++) {
         if (onlyH && HARNESS != onlyH) continue;
         if (HARNESS == 5 && !G_thorough && !onlyH) continue;
         threads_stop();
-        NT = (HARNESS == 3 || HARNESS == 5) ? 3 : 2; POOLED = HARNESS == 8;
+        NT = (HARNESS == 3 || HARNESS == 5) ? 3 : 2; POOLED = HARNESS == 8; TWIN = HARNESS == 10;
         /* H6 runs with the optional allocator entries NULL, every other harness with per-thread arenas */
         { polyseed_dependency dd = { d_rand, d_kdf, d_mz, d_nfc, d_nfkd, d_time, HARNESS == 6 ? NULL : d_alloc, HARNESS == 6 ? NULL : d_free }; sec_load(snap); polyseed_inject(&dd); polyseed_enable_features(3); free(snap); snap = sec_copy(); }
         serial_reference();
@@ -345,7 +345,7 @@ int main(int argc, char **argv) {
         if (serial_stuck) { res_viol(r, "c20:serial-stuck", "", "harness H%d: a script run alone never finishes (spins on an atomic object)", HARNESS); }
         char pp[100] = ""; for (int t = 0; t < NT; t++) snprintf(pp + strlen(pp), sizeof pp - strlen(pp), "%s%d", t ? "+" : "", ref_pts[t]);
         res_sample(r, "H%d: %d threads, shared-access points per thread %s, %ld executions, %llu distinct joint transcripts, max preemptions in one execution %d", HARNESS, NT, pp, o.execs, (unsigned long long)o.distinct_tr, o.max_preempt);
-        char name[160]; snprintf(name, sizeof name, "H%d (%d threads): %s", HARNESS, NT, HARNESS == 1 ? "create, encode(es), decode(auto), free" : HARNESS == 2 ? "load, crypt, keygen, encode(jp), decode_explicit, free" : HARNESS == 6 ? "libc allocator (alloc/free entries NULL): create, free, create, store, load, free" : HARNESS == 7 ? "decode(auto) of a refused phrase (feature not enabled) + decode_explicit + refused load | decode(auto, es) + refused decode_explicit + decode(auto)" : HARNESS == 8 ? "shared recycling pool allocator: load, free, create, store, free | create, store, free, load, free" : HARNESS == 9 ? "ambiguous Chinese phrases: decode(auto) -> multiple languages, decode_explicit(zh_s | zh_t), decode(auto, no lang_out)" : HARNESS == 5 ? "3 x (create, encode, decode(auto), free) in es / fr / en, coin 9" : HARNESS == 4 ? "load+encode(zh_t)+decode(auto)+crypt(non-ASCII) | create+encode(ko)+store+decode_explicit" : "create+encode | load+encode+decode_explicit | load+crypt+keygen, all English / coin 1");
+        char name[160]; snprintf(name, sizeof name, "H%d (%d threads): %s", HARNESS, NT, HARNESS == 1 ? "create, encode(es), decode(auto), free" : HARNESS == 2 ? "load, crypt, keygen, encode(jp), decode_explicit, free" : HARNESS == 6 ? "libc allocator (alloc/free entries NULL): create, free, create, store, load, free" : HARNESS == 7 ? "decode(auto) of a refused phrase (feature not enabled) + decode_explicit + refused load | decode(auto, es) + refused decode_explicit + decode(auto)" : HARNESS == 8 ? "shared recycling pool allocator: load, free, create, store, free | create, store, free, load, free" : HARNESS == 10 ? "twin threads (same random blocks, same clock): create, store, create, store, free, free" : HARNESS == 9 ? "ambiguous Chinese phrases: decode(auto) -> multiple languages, decode_explicit(zh_s | zh_t), decode(auto, no lang_out)" : HARNESS == 5 ? "3 x (create, encode, decode(auto), free) in es / fr / en, coin 9" : HARNESS == 4 ? "load+encode(zh_t)+decode(auto)+crypt(non-ASCII) | create+encode(ko)+store+decode_explicit" : "create+encode | load+encode+decode_explicit | load+crypt+keygen, all English / coin 1");
         char note[200]; snprintf(note, sizeof note, "%s; states = distinct (shared data, progress, values read, running thread) keys; transitions = enabled choices", complete ? "all interleavings explored (complete, no preemption bound)" : sync_complete ? "too large at access granularity; all interleavings at synchronisation granularity (library atomics) explored, race detector on every execution; access granularity up to the preemption bound in e3_preemption_bound" : bound_done >= 0 ? "state cap hit without bound; completed with preemption bound (see e3_preemption_bound)" : "stopped early");
         out_part(name, r, CLS, note);
         char k[64]; snprintf(k, sizeof k, "e3_H%d_complete", HARNESS); out_kv_int(k, complete); snprintf(k, sizeof k, "e3_H%d_preemption_bound", HARNESS); out_kv_int(k, complete ? -1 : bound_done); snprintf(k, sizeof k, "e3_H%d_executions", HARNESS); out_kv_int(k, o.execs);
